@@ -14,9 +14,10 @@ CONSTANTS
   Vers = {0, 1}
   FixH4 = FALSE
   SysZeroWrites = FALSE
+  FilterReorgInBatch = TRUE
   MaxSteps = 16
   SimMaxOps = 5
 INIT MBTInit
 NEXT MBTNext
-INVARIANTS TypeOK ReadsAgree HeadAgrees NoOrphanLogs Canon IdxCanon IdxSound
+INVARIANTS TypeOK ReadsAgree HeadAgrees NoOrphanLogs Canon IdxCanon IdxSound FilterCoversChain
 CHECK_DEADLOCK FALSE
